@@ -426,7 +426,8 @@ def run_case(ctx, case):
         # the very first request after the fit (nothing cached yet: covariance / Hessian are computed now) meets a cost function that raises
         return early_fault(ctx, case, fit, names, free, minimizer)
     s0 = snapshot(fit)
-    if not np.all(np.isfinite(s0["p"])) or not np.isfinite(s0["cost"]) or np.any(s0["err"][[names.index(f) for f in free]] <= 0):
+    _fe = s0["err"][[names.index(f) for f in free]]
+    if not np.all(np.isfinite(s0["p"])) or not np.isfinite(s0["cost"]) or not np.all(np.isfinite(_fe)) or np.any(_fe <= 0):  # (nan <= 0 is False)
         ctx.discard("fit-result-not-usable")
         return False
     # parameter resting on a limit: uncertainties are not meaningful yardsticks -> discard (C06 covers limits)
